@@ -1,7 +1,7 @@
 """C07 - Silent instances are detected in bounded time, live ones never declared lost (structural clauses)."""
 import ast
 from ..model import own_nodes, AnalysisError
-from ..paths import factmap, must_call, call_text, returns
+from ..paths import expand_self, factmap, must_call, call_text, returns
 from ..typestate import InstanceTypestate
 from ..fsm import Fsm
 from . import shared
@@ -246,7 +246,8 @@ def run(P, R):
             'SupvisorsTimes.update does not unconditionally store the local reference counter')
     u = P.unit('Context.on_tick_event')
     k = [c for c in own_nodes(u.node) if isinstance(c, ast.Call) and call_text(c) == 'status.update_tick']
-    ok = len(k) == 1 and len(k[0].args) == 4 and ast.unparse(k[0].args[3]) == 'self.local_sequence_counter'
+    ok = len(k) == 1 and len(k[0].args) == 4 and \
+        expand_self(u, k[0].args[3]) == expand_self(u, 'self.local_status.sequence_counter')
     R.check(r6, ok, 'a remote tick is stamped with the current local counter', 'threshold|stamp', u.loc(),
             'Context.on_tick_event does not stamp the tick with self.local_sequence_counter')
 
